@@ -105,6 +105,88 @@ func owalkValue(i *simdjson.Iter, b *strings.Builder) error {
 	return nil
 }
 
+// owalkScratchValue is owalkValue with caller-owned destinations: one Iter, Object and Array per nesting depth,
+// kept in the store for the whole case and handed to the API again for every member and every document.
+func owalkScratchValue(i *simdjson.Iter, b *strings.Builder, st *store, depth int) error {
+	for len(st.scIters) <= depth {
+		st.scIters = append(st.scIters, &simdjson.Iter{})
+		st.scObjs = append(st.scObjs, nil)
+		st.scArrs = append(st.scArrs, nil)
+	}
+	switch i.Type() {
+	case simdjson.TypeObject:
+		o, err := i.Object(st.scObjs[depth])
+		if err != nil {
+			return err
+		}
+		st.scObjs[depth] = o
+		b.WriteByte('{')
+		first := true
+		for {
+			d := st.scIters[depth]
+			name, t, err := o.NextElementBytes(d)
+			if err != nil {
+				return err
+			}
+			if t == simdjson.TypeNone {
+				break
+			}
+			if !first {
+				b.WriteByte(',')
+			}
+			first = false
+			b.WriteString(hx(name))
+			b.WriteByte(':')
+			if err := owalkScratchValue(d, b, st, depth+1); err != nil {
+				return err
+			}
+		}
+		b.WriteByte('}')
+		return nil
+	case simdjson.TypeArray:
+		a, err := i.Array(st.scArrs[depth])
+		if err != nil {
+			return err
+		}
+		st.scArrs[depth] = a
+		it := a.Iter()
+		b.WriteByte('[')
+		first := true
+		for it.Advance() != simdjson.TypeNone {
+			if !first {
+				b.WriteByte(',')
+			}
+			first = false
+			c := it
+			if err := owalkScratchValue(&c, b, st, depth+1); err != nil {
+				return err
+			}
+		}
+		b.WriteByte(']')
+		return nil
+	default:
+		return owalkValue(i, b)
+	}
+}
+
+func owalkScratch(pj *simdjson.ParsedJson, st *store) (string, error) {
+	var b strings.Builder
+	b.WriteByte('[')
+	first := true
+	err := pj.ForEach(func(i simdjson.Iter) error {
+		if !first {
+			b.WriteByte(',')
+		}
+		first = false
+		return owalkScratchValue(&i, &b, st, 0)
+	})
+	if err != nil {
+		return "", err
+	}
+	b.WriteByte(']')
+	return b.String(), nil
+}
+
 func owalk(pj *simdjson.ParsedJson) (string, error) {
 	var b strings.Builder
 	b.WriteByte('[')
